@@ -95,6 +95,7 @@ struct Gen {
     Profile pf;
     Program p;
     int nmods = 0;
+    bool tasks_in_program = false;
     bool thorough = false;
     std::string camp;
 
@@ -117,6 +118,9 @@ struct Gen {
             int n = in_cb ? 9 : 9;
             const char *nm = names[r.below(n)];
             if (!strcmp(nm, "dereg") && r.chance(0.5)) nm = "stop";
+            // avoid(known finding: task thread vs module stop/pause): programs that use task sources outside C04 do not
+            // stop/pause/deregister modules
+            if (tasks_in_program && camp != "C04" && strcmp(nm, "start") && strcmp(nm, "resume")) nm = "start";
             p.add(where, nm, {rmod()});
             break;
         }
@@ -145,7 +149,7 @@ struct Gen {
         case SRC: {
             if (!pf.src_kinds) { gen_op(where, MSG, in_cb); break; }
             int kind;
-            do { kind = (int)r.below(7); } while (!((pf.src_kinds >> kind) & 1));
+            do { kind = (int)r.below(7); } while (!((pf.src_kinds >> kind) & 1) || (kind == 5 && !tasks_in_program && (pf.src_kinds & ~32)));
             bool reg = r.chance(0.68);
             long fl = rbits(pf.src_flag_bits, 0.25);
             bool bad = pf.bad_params && r.chance(0.06);
@@ -257,6 +261,8 @@ Program gen_core(const std::string &campaign, uint64_t seed, bool thorough) {
     p.set("teardown", (long)r.below(2));
     p.set("keeprefs", r.chance(campaign == "C04" || campaign == "C20" ? 0.5 : 1.0) ? 1 : 0);
     p.set("nufd", 3);
+    g.tasks_in_program = campaign == "C04" ? r.chance(0.6) : r.chance(0.3);
+    p.set("tasks", g.tasks_in_program ? 1 : 0);
     bool dispatch_mode = r.chance(0.4);
     p.set("mode", dispatch_mode ? "dispatch" : "blocking");
 
